@@ -11,6 +11,7 @@ import gevent
 from gevent.event import AsyncResult
 
 from sim import net
+from sim.world import H
 from sim.tls import SimTLSContext, install_tls_seam
 from harness.smtppeer import ScriptedServer, Listener
 
@@ -228,11 +229,32 @@ class HttpResponder(object):
                 rh = spec.get('reply_header')
                 if rh is not None:
                     out += 'X-Smtp-Reply: %s\r\n' % rh
-                out += 'Content-Length: 0\r\n'
+                # a third of the responses carry a short body (to be drained
+                # before the connection can be used again)
+                blen = spec['body'] if 'body' in spec else (
+                    17 if H(w.sched_seed, 'httpbody', conn_n, k) % 3 == 0
+                    else 0)
+                body = b'x' * int(blen or 0)
+                if body:
+                    w.probe('http-response-body')
+                if act == 'body-stall':
+                    body = b'y' * 40
+                out += 'Content-Length: %d\r\n' % len(body)
                 if spec.get('close'):
                     out += 'Connection: close\r\n'
                 out += '\r\n'
                 data = out.encode('iso-8859-1')
+                if act == 'body-stall':
+                    # status line and headers complete, then the peer goes
+                    # silent inside the announced body
+                    w.fault('peer-stall')
+                    c.stalled_at = ('body', w.loop._now)
+                    w.log('STALL', 'http', 'body')
+                    sock.sendall(data + body[:10])
+                    rec['status'] = status
+                    gevent.sleep(10 ** 7)
+                    return
+                data += body
                 if act == 'partial':
                     w.fault('peer-partial-reply')
                     c.stalled_at = ('response', w.loop._now)
